@@ -490,3 +490,253 @@ func ReportIdxWidth(w *World, r *Report, names ...string) {
 		r.Check(bad == "", "R-IDXWIDTH", n, w.Pos(fn.Pos()), bad, fmt.Sprintf("%d index / bound / length operands, none narrowed", nidx))
 	}
 }
+
+// narrowIntBits: the width of an integer type narrower than 32 bits, else 0.
+func narrowIntBits(t types.Type) int {
+	b, ok := t.Underlying().(*types.Basic)
+	if !ok {
+		return 0
+	}
+	switch b.Kind() {
+	case types.Int8, types.Uint8:
+		return 8
+	case types.Int16, types.Uint16:
+		return 16
+	}
+	return 0
+}
+
+// ReportCountWidth (R-COUNTWIDTH): a counter that is advanced once per loop iteration - a loop-carried variable
+// x = x + k or a memory cell c[j] = c[j] + k - counts something whose number the input controls (elements, keys,
+// set bits); held in an 8- or 16-bit integer it wraps after 2^8 / 2^16 increments and the result is silently too
+// small. Accepted: a loop whose trip count is bounded by a constant that fits the type.
+func ReportCountWidth(w *World, r *Report, names ...string) {
+	r.Rule("R-COUNTWIDTH", "no counter advanced inside a loop (a loop-carried x = x + k, or a memory cell c[j] = c[j] + k) has an integer type narrower than 32 bits unless the loop's trip count is bounded by a constant that fits: the number of increments is input-controlled and a narrow counter wraps silently")
+	for _, n := range names {
+		fn := findFunc(w, n)
+		if fn == nil || fn.Blocks == nil {
+			continue
+		}
+		fa := w.FA(fn)
+		bad := ""
+		nsite := 0
+		inLoopBounded := func(b *ssa.BasicBlock, bitsW int) (inLoop, bounded bool) {
+			// the innermost loop-header phis dominating b with b inside their natural loop
+			bounded = true
+			for _, hb := range fn.Blocks {
+				isHead := false
+				for _, pr := range hb.Preds {
+					if hb.Dominates(pr) && (pr == b || reaches(b, pr, hb)) {
+						isHead = true
+					}
+				}
+				if !isHead || !hb.Dominates(b) {
+					continue
+				}
+				inLoop = true
+				ok := false
+				for _, ins := range hb.Instrs {
+					p, isPhi := ins.(*ssa.Phi)
+					if !isPhi {
+						break
+					}
+					if iv, okIv := fa.InductionOf(p, b); okIv && iv.HasN && iv.N.IsConst() && iv.FirstConst && iv.Step >= 1 {
+						if trips := (iv.N.K - iv.First + iv.Step - 1) / iv.Step; trips >= 0 && trips < (1<<uint(bitsW-1)) {
+							ok = true
+						}
+					}
+				}
+				if !ok {
+					bounded = false
+				}
+			}
+			return
+		}
+		eachInstr(fn, func(ins ssa.Instruction) {
+			bo, ok := ins.(*ssa.BinOp)
+			if !ok || bo.Op != token.ADD {
+				return
+			}
+			bw := narrowIntBits(bo.Type())
+			if bw == 0 {
+				return
+			}
+			carried := false
+			for _, op := range []ssa.Value{bo.X, bo.Y} {
+				if p, ok := op.(*ssa.Phi); ok && isLoopHeaderPhi(p) {
+					for _, e := range p.Edges {
+						for _, s := range resolvePhi(e) {
+							if s == ssa.Value(bo) {
+								carried = true
+							}
+						}
+					}
+				}
+				if ld, ok := op.(*ssa.UnOp); ok && ld.Op == token.MUL && bo.Referrers() != nil {
+					for _, ref := range *bo.Referrers() {
+						st, ok := ref.(*ssa.Store)
+						if !ok || st.Val != ssa.Value(bo) {
+							continue
+						}
+						if st.Addr == ld.X {
+							carried = true
+						} else if a1, ok := st.Addr.(*ssa.IndexAddr); ok {
+							if a2, ok := ld.X.(*ssa.IndexAddr); ok && fa.VN(a1.X) == fa.VN(a2.X) && fa.Lin(a1.Index).Eq(fa.Lin(a2.Index)) {
+								carried = true
+							}
+						}
+					}
+				}
+			}
+			if !carried {
+				return
+			}
+			inLoop, bounded := inLoopBounded(bo.Block(), bw)
+			if !inLoop {
+				return
+			}
+			nsite++
+			if !bounded {
+				bad = fmt.Sprintf("the %d-bit counter advanced at %s sits in a loop whose trip count is not bounded by a constant that fits %d bits: after 2^%d increments it wraps and the count is silently too small", bw, w.InstrPos(ins), bw, bw)
+			}
+		})
+		r.Check(bad == "", "R-COUNTWIDTH", n, w.Pos(fn.Pos()), bad, fmt.Sprintf("%d narrow counters in loops, each bounded by a constant trip count", nsite))
+	}
+}
+
+// reaches: to is reachable from from without passing through block stop.
+func reaches(from, to, stop *ssa.BasicBlock) bool {
+	seen := map[*ssa.BasicBlock]bool{from: true}
+	st := []*ssa.BasicBlock{from}
+	for len(st) > 0 {
+		b := st[len(st)-1]
+		st = st[:len(st)-1]
+		if b == to {
+			return true
+		}
+		for _, sc := range b.Succs {
+			if sc != stop && !seen[sc] {
+				seen[sc] = true
+				st = append(st, sc)
+			}
+		}
+	}
+	return false
+}
+
+// ReportNegBound (R-NEGBOUND): the search functions of bytes and strings (Index, IndexByte, IndexAny, IndexFunc,
+// IndexRune, LastIndex...) answer -1 when nothing is found. Used as a slice bound or index, their result needs a
+// guard (or a +1) on every path: otherwise the input that does not contain what is searched for panics.
+func ReportNegBound(w *World, r *Report, names ...string) {
+	r.Rule("R-NEGBOUND", "a slice bound or index computed from the result of a bytes./strings. Index* search (-1 when absent) is non-negative on every path: by a dominating guard or by construction (result+1); else the input without the searched byte panics with slice bounds out of range")
+	isSearch := func(v ssa.Value) bool {
+		call, ok := v.(*ssa.Call)
+		if !ok {
+			return false
+		}
+		nm := calleeName(call.Common())
+		for _, p := range []string{"bytes.Index", "bytes.LastIndex", "strings.Index", "strings.LastIndex"} {
+			if len(nm) >= len(p) && nm[:len(p)] == p {
+				return true
+			}
+		}
+		return false
+	}
+	for _, n := range names {
+		fn := findFunc(w, n)
+		if fn == nil || fn.Blocks == nil {
+			continue
+		}
+		fa := w.FA(fn)
+		bad := ""
+		nsite := 0
+		check := func(v ssa.Value, at ssa.Instruction, what string) {
+			if v == nil {
+				return
+			}
+			L := fa.Lin(v)
+			var src ssa.Value
+			for atom, cf := range L.T {
+				if av := fa.AtomValue(atom); av != nil && isSearch(stripConv(av)) {
+					if cf != 1 || len(L.T) != 1 {
+						return // not a plain offset of the search result: undecided here, other rules speak
+					}
+					src = av
+				}
+			}
+			if src == nil {
+				return
+			}
+			nsite++
+			if L.K >= 1 {
+				return
+			}
+			if bd := fa.BoundsAt(at.Block(), L); bd.HasLo && bd.Lo >= 0 {
+				return
+			}
+			bad = fmt.Sprintf("the %s at %s is the result of %s%+d with no guard: -1 (nothing found) makes it negative and the access panics", what, w.InstrPos(at), calleeName(stripConv(src).(*ssa.Call).Common()), L.K)
+		}
+		eachInstr(fn, func(ins ssa.Instruction) {
+			switch x := ins.(type) {
+			case *ssa.Slice:
+				check(x.Low, ins, "slice bound")
+				check(x.High, ins, "slice bound")
+				check(x.Max, ins, "slice bound")
+			case *ssa.IndexAddr:
+				check(x.Index, ins, "index")
+			case *ssa.Index:
+				check(x.Index, ins, "index")
+			}
+		})
+		r.Check(bad == "", "R-NEGBOUND", n, w.Pos(fn.Pos()), bad, fmt.Sprintf("%d bounds taken from a search result, each guarded or offset by +1", nsite))
+	}
+}
+
+// ReportMul32 (R-MUL32): tree indexes and sizes of bmtree run up to 2^31-1. The product of two run-time
+// quantities computed in a 32-bit (or platform-width) integer type overflows long before that; the
+// library's own closed forms multiply in uint64 (shiftMulti). Accepted: a factor that is a single bit
+// (x&1, a 0/1 flag) or a constant.
+func ReportMul32(w *World, r *Report, names ...string) {
+	r.Rule("R-MUL32", "no product of two non-constant values is computed in an integer type of 32 bits or of platform width in the index arithmetic of bmtree (sizes and indexes reach 2^31-1; shiftMulti multiplies in uint64): such a product wraps for tall trees and the index comes out negative or wrong; a factor that is a single bit or a constant is accepted")
+	oneBit := func(v ssa.Value) bool {
+		v = stripConv(v)
+		if _, j, ok := asLowMask(v); ok && j <= 1 {
+			return true
+		}
+		return false
+	}
+	for _, n := range names {
+		fn := findFunc(w, n)
+		if fn == nil || fn.Blocks == nil {
+			continue
+		}
+		bad := ""
+		nmul := 0
+		eachInstr(fn, func(ins ssa.Instruction) {
+			bo, ok := ins.(*ssa.BinOp)
+			if !ok || bo.Op != token.MUL {
+				return
+			}
+			b, ok := bo.Type().Underlying().(*types.Basic)
+			if !ok || b.Info()&types.IsInteger == 0 {
+				return
+			}
+			switch b.Kind() {
+			case types.Int64, types.Uint64:
+				return
+			}
+			if _, isC := bo.X.(*ssa.Const); isC {
+				return
+			}
+			if _, isC := bo.Y.(*ssa.Const); isC {
+				return
+			}
+			nmul++
+			if oneBit(bo.X) || oneBit(bo.Y) {
+				return
+			}
+			bad = fmt.Sprintf("the product at %s of two run-time values is computed in %s: with sizes and indexes up to 2^31-1 it wraps", w.InstrPos(ins), b.Name())
+		})
+		r.Check(bad == "", "R-MUL32", n, w.Pos(fn.Pos()), bad, fmt.Sprintf("%d products of two run-time values in a type of at most 32 bits (or platform width)", nmul))
+	}
+}
